@@ -3,6 +3,8 @@
 package pub
 
 import (
+	"math"
+	"runtime/debug"
 	"fmt"
 	"math/rand"
 	"net/url"
@@ -136,6 +138,12 @@ func verifRunPaging(out *verifkit.Trace, rng *rand.Rand, sim *verifsim.Sim, sid 
 	jtp.VerifSetCache(64)
 	sim.Reset()
 	h := sim.Host("p1")
+	/* said before anything is built: a process that dies while the collection is opened has said which one it was */
+	pagesOut := make([]verifkit.M, len(in.Pages))
+	for i, pg := range in.Pages {
+		pagesOut[i] = verifkit.M{"n": pg.N, "next": pg.Next}
+	}
+	out.Emit(verifkit.M{"ev": "begin", "sid": sid, "pages": pagesOut, "sizes": in.Sizes, "embedded": embedded})
 	if embedded {
 		var build func(p int) any
 		build = func(p int) any {
@@ -219,12 +227,7 @@ func verifRunPaging(out *verifkit.Trace, rng *rand.Rand, sim *verifsim.Sim, sid 
 		}
 		root, err = NewCollection(h.URL(pagePath(1)), nil, verifConstructTag)
 	}
-	pagesOut := make([]verifkit.M, len(in.Pages))
-	for i, pg := range in.Pages {
-		pagesOut[i] = verifkit.M{"n": pg.N, "next": pg.Next}
-	}
 	ev := verifkit.M{"ev": "paging", "sid": sid, "pages": pagesOut, "embedded": embedded, "ordered": ordered, "panic": false}
-	out.Emit(verifkit.M{"ev": "begin", "sid": sid, "pages": pagesOut, "sizes": in.Sizes, "embedded": embedded})
 	/* a session that does not finish is an observation too: the whole process is given up */
 	watchdog := time.AfterFunc(6*time.Second, func() {
 		out.Emit(verifkit.M{"ev": "hang", "sid": sid})
@@ -263,6 +266,11 @@ func verifRunPaging(out *verifkit.Trace, rng *rand.Rand, sim *verifsim.Sim, sid 
 	for k := 0; k < extraCalls; k++ {
 		sizes = append(sizes, uint(rng.Intn(4)))
 	}
+	if sid%5 == 2 && verifAcyclic(in.Pages) {
+		/* "everything that is left": a request size beyond any collection (on a chain that ends: on a cycle the
+		   work a request may do grows with its size) */
+		sizes = append(sizes, []uint{1 << 48, math.MaxInt}[(sid/5)%2])
+	}
 	for _, n := range sizes {
 		if cont == nil {
 			break
@@ -300,7 +308,11 @@ func verifRunPaging(out *verifkit.Trace, rng *rand.Rand, sim *verifsim.Sim, sid 
 				failed = true
 			}
 		}
-		calls = append(calls, verifkit.M{"n": n, "items": tags, "err": failed, "done": next == nil, "tail": tail,
+		reported := n
+		if reported > 1000000 {
+			reported = 1000000 /* (the judge counts in 32 bits; no layout here is that long) */
+		}
+		calls = append(calls, verifkit.M{"n": reported, "items": tags, "err": failed, "done": next == nil, "tail": tail,
 			"visits": sim.ConnCount() - before})
 		cont, start = next, nextStart
 	}
@@ -456,6 +468,8 @@ func TestVerifPaging(t *testing.T) {
 	defer sim.Cleanup()
 	rng := verifkit.Rand()
 	jtp.VerifSetTimeout(3 * time.Second)
+	/* a walk that calls itself without end shows as a crash within seconds, not as a gigabyte of stack */
+	debug.SetMaxStack(48 << 20)
 	sid := 0
 	for _, s := range in.Sessions {
 		sid++
